@@ -10,6 +10,7 @@ statements for every `Codec`.
 import ConfModel.Lemmas.Convert
 import ConfModel.Lemmas.Base64
 import ConfModel.Generated.C18Facts
+import ConfModel.Model.ProtoWire
 namespace ConfModel.Props.C18
 open ConfModel.Convert ConfModel.ConvertSpec
 
@@ -72,6 +73,22 @@ theorem error_any (e : ConnectErr) :
     errorToProto (some (.wrapped e)) = some (connectToProto e) ∧
     errorToProto (some (.connect e)) = some (connectToProto e) ∧ errorToProto none = none :=
   ⟨rfl, rfl, rfl⟩
+
+/-- `ConvertErrorToConnectError` and `ConvertErrorToProtoError` agree on every error - nil, plain,
+Connect, wrapped Connect: the second is the first followed by the Connect → proto conversion;
+nil stays nil in every converter; a Connect error, wrapped or not, is handed on unchanged. -/
+theorem error_to_connect (g : Option GoErr) :
+    errorToProto g = (errorToConnect g).map connectToProto ∧
+    (errorToConnect g = none ↔ g = none) ∧
+    (∀ e, errorToConnect (some (.wrapped e)) = some e ∧ errorToConnect (some (.connect e)) = some e) ∧
+    grpcToProto none = none := by
+  refine ⟨?_, ?_, fun e => ⟨rfl, rfl⟩, rfl⟩
+  · cases g with
+    | none => rfl
+    | some x => cases x <;> simp [errorToProto, errorToConnect, connectToProto, codeUnknown]
+  · cases g with
+    | none => simp [errorToConnect]
+    | some x => cases x <;> simp [errorToConnect]
 
 /-- the prefix the model restores is the repository's `DefaultAnyResolverPrefix` -/
 theorem any_prefix_fact : Generated.C18Facts.anyPrefix.toList = anyPrefix := by decide
@@ -387,6 +404,13 @@ theorem http_header_roundtrip (md : MD) (hcan : ∀ kv ∈ md, canon kv.1 = kv.1
 
 example : ∀ kv ∈ ([("X-A".toList, [[1]]), ("Content-Type".toList, [[2], [3]])] : MD), canon kv.1 = kv.1 := by decide
 
+/-- The `message` parameter of a Connect GET as the reference client's raw request sender writes
+it (`base64.URLEncoding`: URL-safe alphabet, padded) reads back to the message bytes: padding
+removed, alphabet mapped back, decoded - for every byte string. -/
+theorem get_message_roundtrip (x : Bytes) :
+    ConfModel.Base64.decodeURLPadded (ConfModel.Base64.encodeURLPadded x) = some x :=
+  ConfModel.Base64.decodeURLPadded_encode x
+
 /-! ## strict codecs (relative to the underlying marshaller) -/
 
 theorem strict_codec_roundtrip {M} (c : Codec M) (h : c.RoundTrips) (m : M) (d : Bytes)
@@ -416,6 +440,72 @@ example : ∃ c : Codec Bytes, c.RoundTrips ∧ strictUnmarshal c [0, 5, 6] = .o
   ⟨{ enc := fun m => some (0 :: m),
      dec := fun d => match d with | 0 :: m => some (m, []) | 1 :: u => some ([], u) | _ => none },
    by intro m d h; cases h; rfl, rfl, rfl⟩
+
+/-! ## the strict binary codec on arbitrary bytes: the top-level wire walk
+
+`Model/ProtoWire.lean`: varints (at most ten bytes), tags (field number 1 .. 2^29-1, wire types
+0-5), values by wire type, groups up to their matching end-group; relative to ANY table of the
+message type's field numbers and accepted wire types (the correspondence run regenerates it from
+the descriptor for every case). -/
+section Wire
+open ConfModel.ProtoWire
+
+/-- The strict codec accepts exactly when the bytes split into well-formed fields every one of
+which the message type knows (number and wire type). -/
+theorem strict_accepts_iff (k : Known) (b : ProtoWire.Bytes) :
+    strictTop k b = .ok ↔ ∃ fs, fields b = some fs ∧ ∀ f ∈ fs, isKnown k f = true := by
+  unfold strictTop
+  cases hf : fields b with
+  | none => simp
+  | some fs =>
+    simp only [Option.some.injEq, exists_eq_left']
+    cases hu : unknownFields k fs with
+    | nil =>
+      simp only [true_iff]
+      intro f hfm
+      cases hk : isKnown k f with
+      | true => rfl
+      | false =>
+        have : f ∈ unknownFields k fs := by simp [unknownFields, hfm, hk]
+        rw [hu] at this; cases this
+    | cons g t =>
+      simp only [reduceCtorEq, false_iff]
+      intro hall
+      have hg : g ∈ unknownFields k fs := by rw [hu]; simp
+      simp only [unknownFields, List.mem_filter, Bool.not_eq_true'] at hg
+      rw [hall g hg.1] at hg; cases hg.2
+
+/-- …and when it refuses a well-formed message it names a field the type does not know. -/
+theorem strict_reports_unknown (k : Known) (b : ProtoWire.Bytes) (num wt : Nat) (h : strictTop k b = .unknown num wt) :
+    ∃ fs f, fields b = some fs ∧ f ∈ fs ∧ f.num = num ∧ f.wt = wt ∧ isKnown k f = false := by
+  unfold strictTop at h
+  cases hf : fields b with
+  | none => simp [hf] at h
+  | some fs =>
+    simp only [hf] at h
+    cases hu : unknownFields k fs with
+    | nil => simp [hu] at h
+    | cons g t =>
+      simp only [hu, Outcome.unknown.injEq] at h
+      have hg : g ∈ unknownFields k fs := by rw [hu]; simp
+      simp only [unknownFields, List.mem_filter, Bool.not_eq_true'] at hg
+      exact ⟨fs, g, rfl, hg.1, h.1, h.2, hg.2⟩
+
+/-- non-vacuity: `UnaryRequest`-like table {1: bytes, 2: bytes}; an unknown varint field 1999, a
+known number with the wrong wire type, an unknown group with a nested group, a truncated value,
+an end-group without start, wire type 6, field number 0 -/
+example :
+    let k : Known := [(1, [2]), (2, [2])]
+    strictTop k [0x0a, 0x01, 0x41, 0x12, 0x00] = .ok ∧
+    strictTop k [0x0a, 0x01, 0x41, 0xf8, 0x7c, 0xac, 0x02] = .unknown 1999 0 ∧
+    strictTop k [0x08, 0x01] = .unknown 1 0 ∧
+    strictTop k [0xfb, 0x7c, 0x08, 0x01, 0xfb, 0x7c, 0xfc, 0x7c, 0xfc, 0x7c] = .unknown 1999 3 ∧
+    strictTop k [0x0a, 0x05, 0x41] = .malformed ∧
+    strictTop k [0xfc, 0x7c] = .malformed ∧
+    strictTop k [0x0e] = .malformed ∧
+    strictTop k [0x00, 0x01] = .malformed := by decide
+
+end Wire
 
 /-! ## strict codecs over sequences of calls: a result is a value -/
 
